@@ -473,7 +473,8 @@ pub fn gen_content(rng: &mut Rng, o: &GenOpts) -> RefArchive {
             }
         }
     }
-    let nlabels = rng.skewed(o.max_labels);
+    // large label budgets are used in full half of the time (skewed() alone rarely gets there)
+    let nlabels = if o.max_labels > 100 && rng.bool() { rng.range(o.max_labels / 4, o.max_labels) } else { rng.skewed(o.max_labels) };
     for _ in 0..nlabels {
         let addr = match rng.below(5) {
             0 => len,
